@@ -700,14 +700,17 @@ void cmb_process_stop(struct cmb_process *tgt, void *retval)
         return;
     }
 
-    /* Stop the underlying coroutine, set its exit value */
-    struct cmi_coroutine *cp = (struct cmi_coroutine *)tgt;
-    cmi_coroutine_stop(cp, retval);
-
     /* Clean up unfinished business */
     cmi_process_cancel_awaiteds(tgt);
     cmi_process_drop_resources(tgt);
     wake_process_waiters(&(tgt->waiters), CMB_PROCESS_STOPPED);
+
+    /*
+     * Stop the underlying coroutine, set its exit value. Last, since this
+     * does not return if the target is the calling process itself.
+     */
+    struct cmi_coroutine *cp = (struct cmi_coroutine *)tgt;
+    cmi_coroutine_stop(cp, retval);
 }
 
 /*
